@@ -78,6 +78,7 @@ pub fn refactor_lib_opts(rng: &mut Rng, tier: Tier, subdirs: bool, cell_links: b
     o.profile.long_lists = 0;
     // section headings with a bare wiki link: the reference an extract leaves behind is titled with the heading as shown
     o.profile.wiki_in_section_headings = true;
+    o.profile.numbered_headings = true;
     o.self_links = false;
     o.crlf = false;
     // attachments, anchors, other schemes: a refactoring or a rename moves text between notes and directories and must
